@@ -44,8 +44,9 @@ def apply_delta(delta, env):
     return env
 
 
-def implicit_paths(layer_dir, scope):
-    """Layer paths per the spec; layer_dir is bytes or None (in-memory env: none)."""
+def implicit_paths(layer_dir, scope, spelled=None):
+    """Layer paths per the spec; layer_dir is bytes or None (in-memory env: none). spelled: the path as the code under test was given it
+    (e.g. relative to ITS working directory) - the entries are that spelling plus the sub-directory; layer_dir is where this process finds it."""
     if layer_dir is None or scope not in ("build", "launch"):
         return []
     out = []
@@ -57,16 +58,16 @@ def implicit_paths(layer_dir, scope):
     for sub, var, scopes in table:
         p = os.path.join(layer_dir, sub)
         if scope in scopes and os.path.isdir(p):   # isdir follows symlinks
-            out.append((var, p))
+            out.append((var, p if spelled is None else os.path.join(spelled, sub)))
     return out
 
 
-def apply(entries, scope, start, layer_dir=None):
+def apply(entries, scope, start, layer_dir=None, spelled=None):
     d = deltas(entries)
     env = apply_delta(d.get("all", {}), start)
     if scope != "all":
         env = apply_delta(d.get(scope, {}), env)
-    for var, path in implicit_paths(layer_dir, scope):
+    for var, path in implicit_paths(layer_dir, scope, spelled):
         prev = env.get(var, b"")
         env[var] = (path + os.pathsep.encode() + prev) if prev else path
     return env
